@@ -62,6 +62,17 @@ def gen(rng, tier):
     cases.append(Case("staticinit", "static-initialisation battery", True, spec="staticinit"))
     return cases
 
+def extra(ctx):
+    """A key of more than 2^32 bytes in one call: the MAC must equal the MAC under the key's digest (RFC 2104 key rule), one-shot and streaming."""
+    import core
+    n = 2 ** 32 + 20
+    hs = HASHES if ctx["tier"] == "thorough" else ["sha256"]
+    lines = ["hmachuge %s %d %d" % (t, n, 1 if ctx["tier"] == "thorough" else 0) for t in hs]
+    res = core.run_lines(ctx["drv"], lines, ctx["rundir"], "hugekey", shards=len(lines), timeout=1500)
+    ctx["extra_cov"]["key_over_4GiB"] = dict(bytes=n, results=[r[:40] for r in res])
+    return [("hugekey", "a key of %d bytes: %s" % (n, r[:500]), dict(key="hmachuge %s" % t, cases=[dict(case=l)], implementation=r, spec="agree"))
+            for t, l, r in zip(hs, lines, res) if r != "agree"]
+
 def key(case, impl, model):
     p = case.line.split()
     return " ".join(p[:2]) + " " + " ".join("len=%d" % (0 if x == "-" else len(x) // 2) for x in p[2:4])
